@@ -135,7 +135,7 @@ check(
 check(
     "C18",
     "OpExpr.tla: declarative denoted tree (TLC checks uniqueness) and the Pratt loop transcribed (TLC checks it builds the denoted tree); every (table, stream, tree) instance replayed into a real PrattParser",
-    "Exhaustive within the bound: all operator tables (1-2 infix operators with each associativity, 0-2 prefix, 0-2 postfix, precedences 1..4) x all well-formed streams to 6 (quick) / 8 (thorough) tokens; TLC checks that "
+    "Exhaustive within the bound: all operator tables (1-2 infix operators with each associativity, 0-2 prefix, 0-2 postfix, precedences 1..4) x all well-formed streams to 6 (quick) / 7 (thorough) tokens; TLC checks that "
     "exactly one tree without precedence inversion exists and that the transcribed parse_expr builds it; the real PrattParser, fed synthetic Pairs, must build the same tree and consume the stream.",
     "Trusted: TLC, CPython. Tables are well-formed (a precedence level belongs to one fixity; equal-precedence infix operators share associativity).",
     "DESIGN.md 2.9, 5 (C18)",
